@@ -108,6 +108,24 @@ def run(ck):
                         ck.violation("P4.te-literal", "P4|te-literal|%s" % fn.name, fn.where(ev["l"]), "%s emits Transfer-Encoding with a non-literal/other value %s" % (fn.name, E.key(x["a"][1])))
     ck.need(n >= 3, "C03: expected >= 3 Transfer-Encoding emitters, found %d" % n)
 
+    # ------------------------------------------------------------------ Content-Length lists
+    ck.rule("P6 ContentLengthInterpreter::checkList: the scan over a list-valued Content-Length stops early only with sawBad established; "
+            "otherwise it runs until strListGetItem() is exhausted (a later conflicting value must not be skipped after a tolerated duplicate)")
+    cl = ck.facts(["src/http/ContentLengthInterpreter.cc"]).fn("Http::ContentLengthInterpreter::checkList")
+    scan = ev_call("strListGetItem")
+    after_scan = lambda ev: ev.get("e") == "ret"
+    fl6 = ck.flow(cl, markers={"scan": scan}, track_markers=["scan"],
+                  track_atoms={"more": E.m_calls("strListGetItem"), "bad": E.m_is_mem("sawBad")})
+    rets = [s for s in fl6.find(after_scan) if s.passed("scan")]
+    ck.need(rets, "C03: no return after the list scan in checkList")
+    for s in rets:
+        if s.tracked("more") is False or s.tracked("bad") is True:
+            ck.ok("P6.list-scan-complete", s.where(), "checkList leaves the scan with the list exhausted or sawBad set")
+        else:
+            ck.violation("P6.list-scan-complete", "P6|checkList|early-exit-without-sawBad", s.where(),
+                         "checkList can stop scanning a Content-Length list while items remain and sawBad is not set: e.g. '5, 5, 95' is sanitised to 5 "
+                         "and the conflicting 95 is never seen", fl6.witness(s))
+
     # ------------------------------------------------------------------ kick
     ck.rule("P5 ConnStateData::kick: parseRequests() only with stoppedReceiving() established null")
     kick = facts.fn("ConnStateData::kick")
